@@ -15,7 +15,7 @@ def instances(tier):
     return [
         {"label": "abandon-at-every-event", "cfg": PLAIN,
          "consts": dict(HttpItems='HttpAll', Items='C13Items', Cfg='CfgPlain', MaxItems=2, ChunkMax=2,
-                        Faults={"refused", "recv_error"}, Reacts={"none", "close"}, ReactAt={"connected", "ready", "text", "closing"},
+                        Faults={"refused", "recv_error", "reqwrite"}, Reacts={"none", "close"}, ReactAt={"connecting", "connected", "ready", "text", "closing"},
                         MaxReacts=1, AbandonAt=EVENTS)},
         {"label": "abandon-at-housekeeping-events", "cfg": TIMERS,
          "consts": dict(HttpItems='HttpOk', Items='C13Items', Cfg='CfgTimers', MaxItems=1, ChunkMax=1, MaxIdle=3, Dts={0, 5},
